@@ -227,3 +227,69 @@ func registerSimProfiles() {
 	}
 	simProfilesRegistered = true
 }
+
+// ---- struct shapes for the embedding-aware populate helpers (C05 / C06)
+
+type FlatShape struct {
+	A    *int64  `cbor:"1,keyasint" json:"a"`
+	B    *string `cbor:"2,keyasint,omitempty" json:"b,omitempty"`
+	C    *[]byte `cbor:"3,keyasint,omitempty" json:"c,omitempty"`
+	Skip string  `cbor:"-" json:"-"`
+}
+
+type EmbShape struct {
+	FlatShape
+	D *uint16 `cbor:"4,keyasint,omitempty" json:"d,omitempty"`
+}
+
+type Emb2Shape struct {
+	EmbShape
+	E *bool `cbor:"5,keyasint,omitempty" json:"e,omitempty"`
+}
+
+type IShape interface{ IsShape() }
+
+func (*FlatShape) IsShape() {}
+
+type IfaceShape struct {
+	IShape
+	F *int `cbor:"6,keyasint,omitempty" json:"f,omitempty"`
+}
+
+func newShape(kind int) any {
+	switch kind % 5 {
+	case 0:
+		return &FlatShape{}
+	case 1:
+		return &EmbShape{}
+	case 2:
+		return &Emb2Shape{}
+	case 3:
+		return &IfaceShape{IShape: &FlatShape{}}
+	}
+	return &IfaceShape{} // embedded interface holding nothing
+}
+
+func filledShape(kind int, a int64, b string, c []byte) any {
+	f := FlatShape{A: &a}
+	if b != "" {
+		f.B = &b
+	}
+	if c != nil {
+		f.C = &c
+	}
+	d := uint16(a)
+	e := a%2 == 0
+	g := int(a)
+	switch kind % 5 {
+	case 0:
+		return &f
+	case 1:
+		return &EmbShape{FlatShape: f, D: &d}
+	case 2:
+		return &Emb2Shape{EmbShape: EmbShape{FlatShape: f, D: &d}, E: &e}
+	case 3:
+		return &IfaceShape{IShape: &f, F: &g}
+	}
+	return &IfaceShape{F: &g}
+}
